@@ -154,6 +154,7 @@ type Exec struct {
 
 // rawHandler is a recording handler used as unknown-endpoint handler / pass-through target.
 type rawHandler struct {
+	Ctx         context.Context
 	Invocations int
 	Req         *http.Request
 	Header      http.Header
@@ -163,6 +164,7 @@ type rawHandler struct {
 
 func (h *rawHandler) ServeHTTP(w http.ResponseWriter, r *http.Request) {
 	h.Invocations++
+	h.Ctx = r.Context()
 	if h.Fn != nil {
 		h.Fn(w, r)
 	}
